@@ -48,6 +48,7 @@ class IOState:
         self.stragglers_seen = 0
         self.trace_seams = []     # (name, detail) of SimFS seam calls in the current scope
         self.probes = {}
+        self.chunks = {}          # array path -> number of chunk writes
 
     # ---- scope: one quantem API call during which faults may fire ----------------------
     def begin_scope(self, armed=None):
@@ -123,6 +124,8 @@ class SimStore(_LocalStore):
         if io is None:
             return await thunk()
         bump(io.counts, kind)
+        if kind == "set" and "/c/" in key:
+            bump(io.chunks, key.split("/c/")[0])
         k = io.counter("store")
         io.log.add("s", k if io.in_scope else "-", kind, key)
         if io.should_fire("store", k, "before"):
